@@ -38,16 +38,16 @@ open Car.Facts
 def V2Header.toTr (h : V2Header) : Tr.Hdr := { dataOffset := h.dataOffset, dataSize := h.dataSize, indexOffset := h.indexOffset }
 
 theorem tr_newHeader (n : Nat) : Tr.newHeader n = (V2Header.new n).toTr := by
-  simp [Tr.newHeader, V2Header.new, V2Header.toTr, Tr.w, u64, pragmaSize, v2HeaderSize]
+  simp [Tr.newHeader, V2Header.new, V2Header.toTr, Tr.w, u64, pragmaSize, v2HeaderSize] <;> omega
 
 theorem tr_withIndexPadding (h : V2Header) (p : Nat) : Tr.withIndexPadding h.toTr p = (h.withIndexPadding p).toTr := by
-  simp [Tr.withIndexPadding, V2Header.withIndexPadding, V2Header.toTr, Tr.w, u64]
+  simp [Tr.withIndexPadding, V2Header.withIndexPadding, V2Header.toTr, Tr.w, u64] <;> omega
 
 theorem tr_withDataPadding (h : V2Header) (p : Nat) : Tr.withDataPadding h.toTr p = (h.withDataPadding p).toTr := by
-  simp [Tr.withDataPadding, V2Header.withDataPadding, V2Header.toTr, Tr.w, u64, pragmaSize, v2HeaderSize]
+  simp [Tr.withDataPadding, V2Header.withDataPadding, V2Header.toTr, Tr.w, u64, pragmaSize, v2HeaderSize] <;> omega
 
 theorem tr_withDataSize (h : V2Header) (n : Nat) : Tr.withDataSize h.toTr n = (h.withDataSize n).toTr := by
-  simp [Tr.withDataSize, V2Header.withDataSize, V2Header.toTr, Tr.w, u64]
+  simp [Tr.withDataSize, V2Header.withDataSize, V2Header.toTr, Tr.w, u64] <;> omega
 
 theorem tr_hasIndex (h : V2Header) : Tr.hasIndex h.toTr = h.hasIndex := by
   simp [Tr.hasIndex, V2Header.hasIndex, V2Header.toTr]
